@@ -44,8 +44,8 @@ func (p probeCase) bytes() []byte {
 func C13(c *fw.Ctx) {
 	c.Level = "exploration"
 	c.SetExhaustive(true)
-	c.Rule("breadth-first from a directive-start position in nine contexts (file start, after a complete directive, after ')', inside an explicit " +
-		"context, after a bare '#' line, after a trailing bare '#', after a '###' block, after a CR-terminated comment, after an annotation with CRLF): every live prefix (neither rejected nor completed) is extended by each of the 256 bytes and by end of file; every completed " +
+	c.Rule("breadth-first from a directive-start position in thirteen contexts (file start, after a complete directive, after ')', inside an explicit " +
+		"context, after a bare '#' line, after a trailing bare '#', after a '###' block, after a CR-terminated comment, after an annotation with CRLF, after a response / Request / Body whose quoted or bracketed type parameter says that no body follows): every live prefix (neither rejected nor completed) is extended by each of the 256 bytes and by end of file; every completed " +
 		"keyword is followed by each of the 256 bytes and by end of file; oracle = independent list of the 30 keywords and the codes 100-599, " +
 		"terminator set {blank, tab, CR, LF, '#', '/', EOF}; the same word list x 257 followers and ~4000 near misses x 7 terminators are also probed " +
 		"at a line start inside the text of an implicit Description (three contexts), where only two things are decided: keyword + terminator starts a directive, and no other word becomes a keyword lexeme; distinct = distinct probe strings; non-trivial = every probe (each decides one transition)")
@@ -67,6 +67,11 @@ func C13(c *fw.Ctx) {
 		{"after-block-comment", "JSIGHT 0.3\n###\nGET /not\n###\n"},
 		{"after-cr-comment", "JSIGHT 0.3\r# c\r"},
 		{"after-annotation-and-crlf", "JSIGHT 0.3\r\nTYPE @t any // note\r\n"},
+		// after directives whose parameter says that no body follows, in the spellings the language allows
+		{"after-response-with-quoted-type-array", "JSIGHT 0.3\nGET /a\n  200 \"[@cat]\"\n  "},
+		{"after-request-with-quoted-type", "JSIGHT 0.3\nPOST /a\n  Request \"@cat\"\n  "},
+		{"after-body-with-quoted-notation", "JSIGHT 0.3\nGET /a\n  200\n    Body \"any\"\n"},
+		{"after-response-with-type-array-and-annotation", "JSIGHT 0.3\nGET /a\n  200 [@cat] /* note */\n"},
 	}
 	pool := c.Pool(false, 0)
 	kindsHit := newStrSet()
